@@ -140,7 +140,7 @@ impl<'a> Tr<'a> {
                 })
             }
             Expr::MethodCall(m) if Self::get_mut_chain(m).is_some() => self.get_mut_chain_k(m, env, e, k),
-            Expr::MethodCall(m) if m.method == "copy_from_slice" && m.args.len() == 1 && matches!(strip_parens(&m.receiver), Expr::Index(_)) => self.array_copy_k(m, env, e, k),
+            Expr::MethodCall(m) if m.method == "copy_from_slice" && m.args.len() == 1 && (matches!(strip_parens(&m.receiver), Expr::Index(_)) || matches!(self.pure(&m.receiver, env, None).map(|v| v.ty), Ok(Ty::Tuple(_)))) => self.array_copy_k(m, env, e, k),
             Expr::MethodCall(m) if Self::view_chain(m).is_some() => self.view_chain_k(m, env, e, k),
             Expr::Loop(l) => {
                 if l.label.is_some() {
@@ -498,12 +498,35 @@ impl<'a> Tr<'a> {
 
     /// `arr[a..b].copy_from_slice(&src);` on a local array (N-tuple) with literal bounds and an array `src` of b - a elements
     fn array_copy_k(&mut self, m: &ExprMethodCall, env: &Env, at: &Expr, k: K) -> R<String> {
-        let ix = match strip_parens(&m.receiver) {
-            Expr::Index(ix) => ix,
-            _ => unreachable!(),
+        let (dest, range): (&Expr, Option<&Expr>) = match strip_parens(&m.receiver) {
+            Expr::Index(ix) => (&ix.expr, Some(&ix.index)),
+            other => (other, None),
         };
-        let (root, path) = self.target_of(&ix.expr)?;
-        let av = self.pure(&ix.expr, env, None)?;
+        let (root, path) = self.target_of(dest)?;
+        let av = self.pure(dest, env, None)?;
+        if let (Ty::Slice(elem), Some(rg)) = (&av.ty, range) {
+            // `list[a..b].copy_from_slice(&src)` with computed bounds: Casts.slice_copy (Rust panics when the range is
+            // outside the list or its length differs from the source's; the list is unchanged here)
+            let r = match strip_parens(rg) {
+                Expr::Range(r) if matches!(r.limits, RangeLimits::HalfOpen(_)) => r,
+                _ => return Err(unsupported(at, "`x[i].copy_from_slice(..)` whose index is not a half-open range")),
+            };
+            let us = Ty::int(IntTy::Usize);
+            let a = match &r.start {
+                Some(x) => self.pure(x, env, Some(&us))?.s,
+                None => "0".to_string(),
+            };
+            let b = match &r.end {
+                Some(x) => self.pure(x, env, Some(&us))?.s,
+                None => format!("(Z.of_nat (length {}))", av.s),
+            };
+            let sv = self.pure(&m.args[0], env, None)?;
+            let sv = crate::calls::coerce_array_to_slice(sv, &Ty::Slice(elem.clone()));
+            join(&sv.ty, &av.ty).map_err(|mm| unsupported(at, &mm))?;
+            let newv = format!("(Casts.slice_copy {} {} {} {})", av.s, a, b, sv.s);
+            let rest = k(self, unit())?;
+            return self.write_place(&root, &path, env, &newv, &rest, at);
+        }
         let n = match &av.ty {
             Ty::Tuple(ts) => ts.len(),
             t => return Err(unsupported(at, &format!("`x[a..b].copy_from_slice(..)` on a value of type {} (only a local array)", t.show()))),
@@ -515,8 +538,9 @@ impl<'a> Tr<'a> {
                 Some(_) => Err(unsupported(at, "`x[a..b].copy_from_slice(..)` whose bounds are not literals")),
             }
         };
-        let (a, b) = match strip_parens(&ix.index) {
-            Expr::Range(r) if matches!(r.limits, RangeLimits::HalfOpen(_)) => (lit_of(&r.start, 0)?, lit_of(&r.end, n)?),
+        let (a, b) = match range.map(strip_parens) {
+            None => (0, n),
+            Some(Expr::Range(r)) if matches!(r.limits, RangeLimits::HalfOpen(_)) => (lit_of(&r.start, 0)?, lit_of(&r.end, n)?),
             _ => return Err(unsupported(at, "`x[i].copy_from_slice(..)` whose index is not a half-open range")),
         };
         let sv = self.pure(&m.args[0], env, None)?;
